@@ -39,12 +39,16 @@ class BasePickerModel(ABC):
         # if depth is too large
         if isinstance(depth, (int, np.integer)):
             depth = (depth, depth, depth)
+        # local maxima are searched within `min_distance`
+        margin = int(np.ceil(kwargs.get("min_distance", 0.0)))
+        depth = tuple(min(s, d + margin) for s, d in zip(image.shape, depth))
         task: da.Array = image.map_overlap(
             self._pick_in_chunk_wrapped,
             **params,
             **kwargs,
+            overlap_depth=depth,
             # dask parameters
-            depth=[min(s, d) for s, d in zip(image.shape, depth)],
+            depth=[int(d) for d in depth],
             trim=False,
             boundary=boundary,
             dtype=object,
@@ -59,14 +63,26 @@ class BasePickerModel(ABC):
         self,
         image: NDArray[np.float32],
         block_info: dict,
+        overlap_depth: tuple[int, int, int],
         **kwargs,
     ) -> NDArray[np.object_]:
         pos, quats, features = self.pick_in_chunk(image, **kwargs)
+        pos = np.asarray(pos, dtype=np.float32).reshape(-1, 3)
+        # Each chunk is processed together with its overlapping margins. Only keep the
+        # molecules in the chunk itself, otherwise they are picked more than once.
+        depth = np.asarray(overlap_depth, dtype=np.float32)
+        upper = np.asarray(image.shape, dtype=np.float32) - depth
+        is_inside = np.all((depth - 0.5 <= pos) & (pos < upper - 0.5), axis=1)
+        pos = pos[is_inside]
+        quats = np.asarray(quats).reshape(-1, 4)[is_inside]
+        features = {k: np.asarray(v)[is_inside] for k, v in features.items()}
         locs: list[tuple[int, int]] = block_info[None]["array-location"]
         for i, (start, _) in enumerate(locs):
             pos[:, i] += start
 
-        return np.array([[[MoleculesBox(pos, quats, features)]]], dtype=object)
+        out = np.empty((1, 1, 1), dtype=object)
+        out[0, 0, 0] = MoleculesBox(pos, quats, features)
+        return out
 
     @abstractmethod
     def pick_in_chunk(
